@@ -8,6 +8,7 @@ import (
 	"github.com/nspcc-dev/neo-go/pkg/config"
 	"github.com/nspcc-dev/neo-go/pkg/core/block"
 	"github.com/nspcc-dev/neo-go/pkg/core/mpt"
+	"github.com/nspcc-dev/neo-go/pkg/core/native/nativehashes"
 	"github.com/nspcc-dev/neo-go/pkg/core/state"
 	"github.com/nspcc-dev/neo-go/pkg/core/statesync"
 	"github.com/nspcc-dev/neo-go/pkg/core/storage"
@@ -138,11 +139,13 @@ func (r *run) runSync() {
 	}
 	r.P = S
 	r.prod = newProducer(S)
+	r.prod.probes = r.out.Probes
+	r.prod.ora.answerStale = true // (finding F-ora-2: a state-synchronised node does not have old transactions)
 	r.w = &world{contracts: map[util.Uint160]int32{}}
 	for i := 0; i < numAccounts; i++ {
 		r.w.accounts = append(r.w.accounts, r.prod.kr.acctHash(i))
 	}
-	r.w.accounts = append(r.w.accounts, S.Exec.Validator.ScriptHash(), S.Exec.CommitteeHash)
+	r.w.accounts = append(r.w.accounts, S.Exec.Validator.ScriptHash(), S.Exec.CommitteeHash, nativehashes.OracleContract)
 	blocks := append([]BlockPlan{{}}, r.plan.Blocks...)
 	for bi, bp := range blocks {
 		var pre []*transaction.Transaction
@@ -360,7 +363,11 @@ func (sr *syncRun) ordinary(from uint32) {
 		sim.Wait()
 		got, err := sr.T.BC.GetStateRoot(x)
 		if err != nil || got.Root.StringLE() != r.ref[x].Detail["stateroot"] {
-			r.violate(sim.Violatef("sync-lockstep-root", "", "after state synchronisation at %d: state root at height %d is %v (%v), expected %s", sr.P, x, got, err, r.ref[x].Detail["stateroot"]))
+			sig := "sync-lockstep-root"
+			if r.oracleOriginalTxNotKept(sr.T, x) {
+				sig += "+oracle-original-tx-not-kept"
+			}
+			r.violate(sim.Violatef("sync-lockstep-root", sig, "after state synchronisation at %d: state root at height %d is %v (%v), expected %s", sr.P, x, got, err, r.ref[x].Detail["stateroot"]))
 			return
 		}
 	}
@@ -666,7 +673,14 @@ func (sr *syncRun) crashJump() {
 				// it continues in lockstep
 				for x := sr.P + 1; x <= min(sr.L, sr.P+2); x++ {
 					if err := n.AddBlockBytes(r.raw[x]); err != nil {
-						r.violate(sim.Violatef("jump-resume-rejected", "", "node recovered from a crash at batch %d/%d of the state jump rejects block %d: %v", k, B, x, err))
+						sig := "jump-resume-rejected"
+						for y := sr.P + 1; y < x; y++ {
+							if r.oracleOriginalTxNotKept(n, y) {
+								sig += "+oracle-original-tx-not-kept"
+								break
+							}
+						}
+						r.violate(sim.Violatef("jump-resume-rejected", sig, "node recovered from a crash at batch %d/%d of the state jump rejects block %d: %v", k, B, x, err))
 						break
 					}
 					sim.Wait()
